@@ -20,7 +20,8 @@ from .runner import run_verus, parse, SCRATCH_ROOT
 from .props import PROPS, COMMON_ASSUMPTIONS
 
 ROOT = os.path.dirname(os.path.dirname(os.path.abspath(__file__)))
-EVID = os.path.join(ROOT, 'evidence')
+# dev runs against scratch copies (seeded/benign_try.sh) redirect their evidence so that /verif/evidence always describes /repo
+EVID = os.environ.get('VERIF_EVIDENCE_DIR') or os.path.join(ROOT, 'evidence')
 
 
 def load_json(p, default):
